@@ -13,7 +13,6 @@ import (
 type (
 	WaitGroup = sync.WaitGroup
 	Once      = sync.Once
-	Map       = sync.Map
 	Pool      = sync.Pool
 	Cond      = sync.Cond
 	Locker    = sync.Locker
@@ -145,3 +144,37 @@ func (m *Mutex) Unlock()       { m.rw.Unlock() }
 func (m *Mutex) TryLock() bool { return m.rw.TryLock() }
 
 // OnceFunc etc. are not used by the rewritten files.
+
+// Map mirrors sync.Map. Every operation of a registered schedx thread is preceded by a scheduling point: each operation is
+// atomic by itself, what can go wrong is a sequence of them (Load ... Store instead of LoadOrStore), and that is only
+// visible if another thread can run in between.
+type Map struct{ m sync.Map }
+
+func (x *Map) pt(op string) {
+	if t := schedx.Current(); t != nil {
+		t.YieldPoint("syncmap." + op)
+	}
+}
+
+func (x *Map) Load(key any) (any, bool)          { x.pt("Load"); return x.m.Load(key) }
+func (x *Map) Store(key, value any)              { x.pt("Store"); x.m.Store(key, value) }
+func (x *Map) Delete(key any)                    { x.pt("Delete"); x.m.Delete(key) }
+func (x *Map) Clear()                            { x.pt("Clear"); x.m.Clear() }
+func (x *Map) Range(f func(key, value any) bool) { x.pt("Range"); x.m.Range(f) }
+func (x *Map) LoadOrStore(key, value any) (any, bool) {
+	x.pt("LoadOrStore")
+	return x.m.LoadOrStore(key, value)
+}
+func (x *Map) LoadAndDelete(key any) (any, bool) {
+	x.pt("LoadAndDelete")
+	return x.m.LoadAndDelete(key)
+}
+func (x *Map) Swap(key, value any) (any, bool) { x.pt("Swap"); return x.m.Swap(key, value) }
+func (x *Map) CompareAndSwap(key, old, new any) bool {
+	x.pt("CompareAndSwap")
+	return x.m.CompareAndSwap(key, old, new)
+}
+func (x *Map) CompareAndDelete(key, old any) bool {
+	x.pt("CompareAndDelete")
+	return x.m.CompareAndDelete(key, old)
+}
